@@ -1,10 +1,10 @@
 package main
 
 import (
-	"golang.org/x/sys/unix"
 	"bufio"
 	"encoding/json"
 	"fmt"
+	"golang.org/x/sys/unix"
 	"os"
 	"path/filepath"
 	"runtime"
@@ -14,7 +14,10 @@ import (
 	"time"
 
 	"github.com/fsnotify/fsnotify"
+	oci "github.com/opencontainers/runtime-spec/specs-go"
+	"sigs.k8s.io/yaml"
 	"tags.cncf.io/container-device-interface/pkg/cdi"
+	specs "tags.cncf.io/container-device-interface/specs-go"
 	"verif/harness/hx"
 )
 
@@ -35,29 +38,68 @@ func init() { registry["C11"] = genC11 }
 type c11Content struct {
 	term string
 	data []byte
+	spec *specs.Spec // nil for contents that do not load
 }
 
-var c11Pool []c11Content // index 0 = empty, 1..2 = bad, rest = valid specs
+// index 0 = empty, 1..2 = bad, then the valid Specs; the last one (c11Solo) defines a device nothing else defines
+var c11Pool []c11Content
+var c11Solo int
+
+// The tags stand for "the rest of the definitions": two valid contents with the same kind and device names differ in the
+// environment variable FROM=<tag> of every device, in nothing else, and have the same length in bytes.
+var c11Tags = []string{"ta", "tb"}
 
 func c11InitPool() {
 	if c11Pool != nil {
 		return
 	}
-	c11Pool = append(c11Pool, c11Content{"CEmpty", nil})
-	c11Pool = append(c11Pool, c11Content{"CBad", []byte("this is not a CDI Spec\n")})
-	c11Pool = append(c11Pool, c11Content{"CBad", []byte("{\"cdiVersion\":\"1.0.0\",\"kind\":\"vendor0.com/cls\"}")}) // no devices
+	c11Pool = append(c11Pool, c11Content{"CEmpty", nil, nil})
+	c11Pool = append(c11Pool, c11Content{"CBad", []byte("this is not a CDI Spec\n"), nil})
+	c11Pool = append(c11Pool, c11Content{"CBad", []byte("{\"cdiVersion\":\"1.0.0\",\"kind\":\"vendor0.com/cls\"}"), nil}) // no devices
+	add := func(v, class string, devs []string, tag string) {
+		sp := validSpec(v, class, devs, tag)
+		data, _ := json.Marshal(sp)
+		c11Pool = append(c11Pool, c11Content{hx.C("CSpec", hx.S(v+"/"+class), hx.LS(devs), hx.S(tag)), data, sp})
+	}
 	for _, v := range []string{"vendor0.com", "vendor1.com"} {
 		for _, devs := range [][]string{{"dev0"}, {"dev1"}, {"dev0", "dev1"}} {
-			data, _ := json.Marshal(validSpec(v, "cls", devs, "c11"))
-			c11Pool = append(c11Pool, c11Content{hx.C("CSpec", hx.S(v+"/cls"), hx.LS(devs)), data})
+			for _, tag := range c11Tags {
+				add(v, "cls", devs, tag)
+			}
 		}
 	}
+	add("vendor9.com", "solocls", []string{"solo"}, c11Tags[0])
+	c11Solo = len(c11Pool) - 1
+}
+
+// c11TagOf: the tag of a device as read from its edits ("" when there is none).
+func c11TagOf(env []string) string {
+	for _, e := range env {
+		if strings.HasPrefix(e, "FROM=") {
+			return strings.TrimPrefix(e, "FROM=")
+		}
+	}
+	return ""
 }
 
 func c11ContentOf(data []byte) (string, bool) {
 	for _, c := range c11Pool {
 		if string(c.data) == string(data) {
 			return c.term, true
+		}
+	}
+	// the same Spec in another encoding (what Cache.WriteSpec writes under a .yaml name)
+	var sp specs.Spec
+	if len(data) > 0 && yaml.Unmarshal(data, &sp) == nil && len(sp.Devices) > 0 {
+		var devs []string
+		for _, d := range sp.Devices {
+			devs = append(devs, d.Name)
+		}
+		t := hx.C("CSpec", hx.S(sp.Kind), hx.LS(devs), hx.S(c11TagOf(sp.Devices[0].ContainerEdits.Env)))
+		for _, c := range c11Pool {
+			if c.term == t {
+				return t, true
+			}
 		}
 	}
 	return "CBad", false
@@ -111,6 +153,11 @@ func (o c11Op) String() string {
 
 var c11Uniq int
 
+// c11Links: configured directories which are symbolic links, with the real directory each leads to.  To the cache and to the
+// model such a directory is a directory like any other; creating it creates the real directory and the link, removing it
+// removes both (removing or retargeting the link alone raises no event at all: DEFECT-PENDING(symlinked-dir-retarget)).
+var c11Links = map[string]string{}
+
 // c11Apply performs the operation on the real directories; out is a directory outside every watched one.
 func c11Apply(dirs []string, out string, o c11Op) bool {
 	d := dirs[o.Dir]
@@ -149,9 +196,20 @@ func c11Apply(dirs []string, out string, o c11Op) bool {
 	case "remove":
 		return os.Remove(filepath.Join(d, o.N)) == nil
 	case "mkdir":
+		if real, ok := c11Links[d]; ok {
+			if _, err := os.Lstat(d); err == nil {
+				return false
+			}
+			return os.Mkdir(real, 0o755) == nil && os.Symlink(real, d) == nil
+		}
 		return os.Mkdir(d, 0o755) == nil
 	case "rmall":
 		_, err := os.Lstat(d)
+		if real, ok := c11Links[d]; ok {
+			_ = os.RemoveAll(real)
+			_ = os.Remove(d)
+			return err == nil
+		}
 		_ = os.RemoveAll(d)
 		return err == nil
 	}
@@ -197,10 +255,22 @@ func c11OpsTerm(op fsnotify.Op) string {
 func c11EventCase(r *hx.R, root string, idx int, kind string) (hx.Case, error) {
 	base := filepath.Join(root, fmt.Sprintf("e%04d", idx))
 	d, sent, out := filepath.Join(base, "D"), filepath.Join(base, "S"), filepath.Join(base, "out")
-	for _, p := range []string{d, sent, out} {
+	linked := idx%4 == 3 // the watched directory is a symbolic link to a directory: the same rules
+	mk := []string{d, sent, out}
+	if linked {
+		mk[0] = filepath.Join(base, "Dreal")
+	}
+	for _, p := range mk {
 		if err := os.MkdirAll(p, 0o755); err != nil {
 			return hx.Case{}, err
 		}
+	}
+	if linked {
+		if err := os.Symlink(mk[0], d); err != nil {
+			return hx.Case{}, err
+		}
+		c11Links[d] = mk[0]
+		defer delete(c11Links, d)
 	}
 	// initial population
 	var pre, preHuman []string
@@ -257,13 +327,45 @@ loop:
 	return hx.Case{
 		Term: hx.C("CEvents", hx.L(pre), o.term([]string{"D"}), hx.B(ok), post, hx.L(obs)),
 		Desc: map[string]interface{}{"stream": "event-table", "before": preHuman, "op": o.String(), "ok": ok, "after": postHuman,
-			"observed_events": obsHuman},
+			"observed_events": obsHuman, "watched_directory_is_a_symlink": linked},
 		Nontrivial: ok,
 		Class:      "events",
 	}, nil
 }
 
 // ---------- (ii) convergence ----------
+
+// Input classes on which the unchanged code violates the property (notes/audit/DEFECT-C11-*.md).  They stay out of the
+// generator until the integrator has decided between a repair and a known finding; VERIF_PENDING=<slug>,... switches a
+// class on for one run.
+const (
+	c11PendingDirRenamedAway = false // DEFECT-PENDING(dir-renamed-away)
+	c11PendingLinkRetarget   = false // DEFECT-PENDING(symlinked-dir-retarget)
+	c11PendingQueueOverflow  = false // DEFECT-PENDING(queue-overflow)
+)
+
+func c11Pending(slug string) bool {
+	switch slug {
+	case "dir-renamed-away":
+		if c11PendingDirRenamedAway {
+			return true
+		}
+	case "symlinked-dir-retarget":
+		if c11PendingLinkRetarget {
+			return true
+		}
+	case "queue-overflow":
+		if c11PendingQueueOverflow {
+			return true
+		}
+	}
+	for _, x := range strings.Split(os.Getenv("VERIF_PENDING"), ",") {
+		if x == slug {
+			return true
+		}
+	}
+	return false
+}
 
 type c11Answer struct {
 	Devs [][2]string
@@ -307,7 +409,7 @@ func (a c11Answer) human(root string) map[string]interface{} {
 	return map[string]interface{}{"devices": devs, "errors": errs}
 }
 
-// c11Ask queries the cache: ListDevices, GetDevice(..).GetSpec().GetPath() for each, key set of GetErrors.
+// c11Ask queries the cache: ListDevices, for each device GetDevice(..): GetSpec().GetPath() and the tag in its edits, key set of GetErrors.
 // consistent=false when the cache changed between the calls (a listed device no longer resolves) or a call panicked.
 func c11Ask(c *cdi.Cache) (a c11Answer, consistent bool) {
 	consistent = true
@@ -318,7 +420,7 @@ func c11Ask(c *cdi.Cache) (a c11Answer, consistent bool) {
 				consistent = false
 				continue
 			}
-			a.Devs = append(a.Devs, [2]string{name, dev.GetSpec().GetPath()})
+			a.Devs = append(a.Devs, [2]string{name, dev.GetSpec().GetPath() + "#" + c11TagOf(dev.ContainerEdits.Env)})
 		}
 		for k := range c.GetErrors() {
 			a.Errs = append(a.Errs, k)
@@ -339,6 +441,58 @@ func c11Fresh(dirs []string) c11Answer {
 	return a
 }
 
+// c11FreshQuery: what query k answers on a freshly built cache.
+func c11FreshQuery(dirs []string, k int) string {
+	c, _ := cdi.NewCache(cdi.WithSpecDirs(dirs...), cdi.WithAutoRefresh(true))
+	a := c11Queries[k].ask(c)
+	_ = c.Configure(cdi.WithAutoRefresh(false))
+	return a
+}
+
+// c11Queries: the query functions which may be the first to be called after a change nothing announces (every one of them
+// begins with refreshIfRequired).  Each returns its answer in a comparable form.
+var c11Queries = []struct {
+	name string
+	ask  func(c *cdi.Cache) string
+}{
+	{"GetDevice", func(c *cdi.Cache) string {
+		d := c.GetDevice("vendor9.com/solocls=solo")
+		if d == nil {
+			return "nil"
+		}
+		return d.GetSpec().GetPath() + "#" + c11TagOf(d.ContainerEdits.Env)
+	}},
+	{"InjectDevices", func(c *cdi.Cache) string {
+		o := &oci.Spec{}
+		un, err := c.InjectDevices(o, "vendor9.com/solocls=solo")
+		if err != nil || o.Process == nil {
+			return fmt.Sprint("unresolved ", un)
+		}
+		return fmt.Sprint(o.Process.Env)
+	}},
+	{"ListVendors", func(c *cdi.Cache) string { return fmt.Sprint(c.ListVendors()) }},
+	{"ListClasses", func(c *cdi.Cache) string { return fmt.Sprint(c.ListClasses()) }},
+	{"GetVendorSpecs", func(c *cdi.Cache) string {
+		var l []string
+		for _, sp := range c.GetVendorSpecs("vendor9.com") {
+			l = append(l, sp.GetPath())
+		}
+		sort.Strings(l)
+		return fmt.Sprint(l)
+	}},
+	{"ListDevices", func(c *cdi.Cache) string { return fmt.Sprint(c.ListDevices()) }},
+	{"Refresh", func(c *cdi.Cache) string {
+		// in automatic mode Refresh() is refreshIfRequired(false) too; GetErrors itself never refreshes
+		_ = c.Refresh()
+		var l []string
+		for k := range c.GetErrors() {
+			l = append(l, k)
+		}
+		sort.Strings(l)
+		return fmt.Sprint(l)
+	}},
+}
+
 type c11Stats struct {
 	notConverged int
 	waits        []float64
@@ -346,6 +500,7 @@ type c11Stats struct {
 	opsOK        map[string]int
 	opsFailed    map[string]int
 	tails        map[string]int
+	nextQuery    int
 }
 
 func c11History(r *hx.R, root string, idx int, tier string, st *c11Stats) hx.Case {
@@ -353,18 +508,34 @@ func c11History(r *hx.R, root string, idx int, tier string, st *c11Stats) hx.Cas
 	out := filepath.Join(base, "out")
 	_ = os.MkdirAll(out, 0o755)
 	nd := 1 + r.Intn(3)
-	dirs := make([]string, nd)
+	dirs := make([]string, nd) // clean and distinct: the operations and the model use these names
 	holdDir := -1
 	onlyPrelude := false
 	var initTerms []string
 	initHuman := map[string]interface{}{}
+	defer func() {
+		for _, d := range dirs {
+			delete(c11Links, d)
+		}
+	}()
 	for i := range dirs {
 		dirs[i] = filepath.Join(base, fmt.Sprintf("d%d", i))
+		linked := r.Chance(0.2)
+		if linked {
+			// the configured directory is a symbolic link to a directory: watched and scanned through the link
+			c11Links[dirs[i]] = filepath.Join(base, fmt.Sprintf("real%d", i))
+			st.tails["a configured directory is a symbolic link"]++
+		}
 		if r.Chance(0.3) {
 			initHuman[fmt.Sprintf("d%d", i)] = "missing"
 			continue
 		}
-		_ = os.MkdirAll(dirs[i], 0o755)
+		if linked {
+			_ = os.MkdirAll(c11Links[dirs[i]], 0o755)
+			_ = os.Symlink(c11Links[dirs[i]], dirs[i])
+		} else {
+			_ = os.MkdirAll(dirs[i], 0o755)
+		}
 		for _, n := range c11Names {
 			if r.Chance(0.3) {
 				_ = os.WriteFile(filepath.Join(dirs[i], n), c11Pool[r.Intn(len(c11Pool))].data, 0o644)
@@ -382,6 +553,36 @@ func c11History(r *hx.R, root string, idx int, tier string, st *c11Stats) hx.Cas
 		initHuman[fmt.Sprintf("d%d", i)] = h
 	}
 
+	// What the caches are given: the directories in clean or non-clean spellings (WithSpecDirs cleans them; events, tracked
+	// directories and error keys carry the clean names), now and then with the first directory once more at the end (highest
+	// priority; one watch).  The machine gets the clean names, with the repetition.
+	spell := func(d string) string {
+		switch r.Intn(8) {
+		case 0:
+			return d + "/"
+		case 1:
+			return d + "/."
+		case 2:
+			return filepath.Dir(d) + "//" + filepath.Base(d)
+		case 3:
+			return filepath.Dir(d) + "/nowhere/../" + filepath.Base(d)
+		}
+		return d
+	}
+	confDirs := make([]string, nd)
+	for i := range dirs {
+		confDirs[i] = spell(dirs[i])
+	}
+	modelDirs := append([]string{}, dirs...)
+	if r.Chance(0.12) {
+		confDirs = append(confDirs, spell(dirs[0]))
+		modelDirs = append(modelDirs, dirs[0])
+		st.tails["a directory configured twice"]++
+	}
+	lastIdx := nd - 1 // the directory Cache.WriteSpec / RemoveSpec act on
+	if len(modelDirs) > nd {
+		lastIdx = 0
+	}
 	var cache *cdi.Cache
 	created := make(chan bool, 1)
 	var preDirs []string
@@ -404,9 +605,9 @@ func c11History(r *hx.R, root string, idx int, tier string, st *c11Stats) hx.Cas
 	go func() {
 		if preDirs != nil {
 			cache, _ = cdi.NewCache(cdi.WithSpecDirs(preDirs...), cdi.WithAutoRefresh(true))
-			_ = cache.Configure(cdi.WithSpecDirs(dirs...))
+			_ = cache.Configure(cdi.WithSpecDirs(confDirs...))
 		} else {
-			cache, _ = cdi.NewCache(cdi.WithSpecDirs(dirs...), cdi.WithAutoRefresh(true))
+			cache, _ = cdi.NewCache(cdi.WithSpecDirs(confDirs...), cdi.WithAutoRefresh(true))
 		}
 		created <- true
 	}()
@@ -463,7 +664,54 @@ func c11History(r *hx.R, root string, idx int, tier string, st *c11Stats) hx.Cas
 			}
 		}
 	}
-	do := func(o c11Op) {
+	var do func(o c11Op)
+	do = func(o c11Op) {
+		if o.Kind == "writespec" || o.Kind == "removespec" {
+			// Cache.WriteSpec / Cache.RemoveSpec as the source of the change: they act on the last configured directory.
+			// Not while this goroutine holds the cache lock (they take it), and not into a missing directory (WriteSpec
+			// would create and populate it in one go: the window of known finding C11/add-scan-window).
+			_, statErr := os.Stat(dirs[lastIdx])
+			if locked || cache == nil || statErr != nil || racyMkdir {
+				if o.Kind == "writespec" {
+					do(c11Op{Kind: "write", Dir: lastIdx, N: o.N + ".tmp", C: o.C})
+					do(c11Op{Kind: "rename", Dir: lastIdx, N: o.N + ".tmp", B: o.N})
+				} else {
+					do(c11Op{Kind: "remove", Dir: lastIdx, N: o.N})
+				}
+				return
+			}
+			d := hx.S(dirs[lastIdx])
+			if o.Kind == "writespec" {
+				var err error
+				p, _ := hx.Guard(func() { err = cache.WriteSpec(c11Pool[o.C].spec, o.N) })
+				ok := !p && err == nil
+				// temporary file (spec.<random>.tmp: no Spec name), written, renamed over the target
+				labels = append(labels, hx.P(hx.C("LOp", hx.C("OWrite", d, hx.S("spec.tmp"), c11Pool[o.C].term)), hx.B(ok)))
+				labels = append(labels, hx.P(hx.C("LOp", hx.C("ORename", d, hx.S("spec.tmp"), hx.S(o.N))), hx.B(ok)))
+				human = append(human, fmt.Sprintf("cache.WriteSpec(%s, %s) into d%d => %v", c11Pool[o.C].term, o.N, lastIdx, ok))
+				if ok {
+					st.opsOK[o.Kind]++
+					nOK++
+				} else {
+					st.opsFailed[o.Kind]++
+				}
+			} else {
+				_, lerr := os.Lstat(filepath.Join(dirs[lastIdx], o.N))
+				var err error
+				p, _ := hx.Guard(func() { err = cache.RemoveSpec(o.N) })
+				ok := !p && err == nil && lerr == nil
+				labels = append(labels, hx.P(hx.C("LOp", hx.C("ORemove", d, hx.S(o.N))), hx.B(ok)))
+				human = append(human, fmt.Sprintf("cache.RemoveSpec(%s) in d%d => %v", o.N, lastIdx, ok))
+				if ok {
+					st.opsOK[o.Kind]++
+					nOK++
+				} else {
+					st.opsFailed[o.Kind]++
+				}
+			}
+			modelSteps()
+			return
+		}
 		ok := c11Apply(dirs, out, o)
 		if !ok {
 			st.opsFailed[o.Kind]++
@@ -491,10 +739,42 @@ func c11History(r *hx.R, root string, idx int, tier string, st *c11Stats) hx.Cas
 		}
 		return hx.Pick(r, c11Names)
 	}
+	// retag: rewrite an existing valid Spec file so that nothing changes but the definitions of its devices (same kind, same
+	// device names, same length in bytes; the other tag); ok=false when the directory holds no valid Spec file
+	retag := func(d int) (c11Op, bool) {
+		ents, err := os.ReadDir(dirs[d])
+		if err != nil {
+			return c11Op{}, false
+		}
+		var cands []c11Op
+		for _, e := range ents {
+			if !e.Type().IsRegular() {
+				continue
+			}
+			data, err := os.ReadFile(filepath.Join(dirs[d], e.Name()))
+			if err != nil {
+				continue
+			}
+			for i := 3; i < c11Solo; i++ {
+				if string(c11Pool[i].data) == string(data) {
+					cands = append(cands, c11Op{Kind: "write", Dir: d, N: e.Name(), C: 3 + ((i - 3) ^ 1)})
+				}
+			}
+		}
+		if len(cands) == 0 {
+			return c11Op{}, false
+		}
+		return cands[r.Intn(len(cands))], true
+	}
 	randomOp := func() []c11Op {
 		d := r.Intn(nd)
 		c := r.Intn(len(c11Pool))
 		switch k := r.Intn(100); {
+		case k < 4:
+			if o, ok := retag(d); ok {
+				return []c11Op{o}
+			}
+			return []c11Op{{Kind: "write", Dir: d, N: pickName(d, 0.3), C: c}}
 		case k < 22:
 			return []c11Op{{Kind: "write", Dir: d, N: pickName(d, 0.3), C: c}}
 		case k < 32:
@@ -511,10 +791,26 @@ func c11History(r *hx.R, root string, idx int, tier string, st *c11Stats) hx.Cas
 			return []c11Op{{Kind: "mkdir", Dir: d}}
 		case k < 82:
 			return []c11Op{{Kind: "rmall", Dir: d}}
-		case k < 90:
+		case k < 85:
 			// the way WriteSpec publishes: temporary name, then rename over the target
 			n := hx.Pick(r, []string{"a.json", "b.yaml", "c.json"})
 			return []c11Op{{Kind: "write", Dir: d, N: n + ".tmp", C: c}, {Kind: "rename", Dir: d, N: n + ".tmp", B: n}}
+		case k < 88:
+			return []c11Op{{Kind: "writespec", N: hx.Pick(r, []string{"a.json", "b.yaml", "c.json"}), C: 3 + r.Intn(len(c11Pool)-3)}}
+		case k < 90:
+			n := hx.Pick(r, []string{"a.json", "b.yaml", "c.json"})
+			if ents, err := os.ReadDir(dirs[lastIdx]); err == nil && r.Chance(0.8) {
+				var have []string
+				for _, e := range ents {
+					if x := filepath.Ext(e.Name()); (x == ".json" || x == ".yaml") && e.Name() != "m.yaml" {
+						have = append(have, e.Name())
+					}
+				}
+				if len(have) > 0 {
+					n = hx.Pick(r, have)
+				}
+			}
+			return []c11Op{{Kind: "removespec", N: n}}
 		default:
 			// remove the directory and re-create it with content at once
 			return []c11Op{{Kind: "rmall", Dir: d}, {Kind: "mkdir", Dir: d}, {Kind: "write", Dir: d, N: hx.Pick(r, c11Names), C: 3 + r.Intn(len(c11Pool)-3)}}
@@ -614,6 +910,40 @@ func c11History(r *hx.R, root string, idx int, tier string, st *c11Stats) hx.Cas
 	}
 	unlock()
 
+	// settle: poll the cache until it answers like a cache freshly built from the directories as they are now (twice, 15 ms apart)
+	settle := func() (fresh, got c11Answer, converged bool, wait time.Duration) {
+		fresh = c11Fresh(confDirs)
+		limit := 3 * time.Second
+		if st.notConverged >= 6 {
+			limit = 400 * time.Millisecond // enough evidence already; keep the run short
+		}
+		start := time.Now()
+		for sleep := 200 * time.Microsecond; ; {
+			var consistent bool
+			got, consistent = c11Ask(cache)
+			if consistent && got.equal(fresh) {
+				// and it stays so
+				time.Sleep(15 * time.Millisecond)
+				again, c2 := c11Ask(cache)
+				if c2 && again.equal(fresh) {
+					converged = true
+					break
+				}
+				got = again
+			}
+			if time.Since(start) > limit {
+				break
+			}
+			time.Sleep(sleep)
+			if sleep < 20*time.Millisecond {
+				sleep *= 2
+			}
+		}
+		return fresh, got, converged, time.Since(start)
+	}
+	forcedFail := "" // an observation other than the final polling that the property does not allow
+	exists := func(i int) bool { _, err := os.Stat(dirs[i]); return err == nil }
+
 	// tail: make every kind of operation likely to be the last effective one, and include the history shape
 	// "directory removed and re-created with content before the watcher handles the removal; the watcher catches
 	// up; the directory is removed again with no query in between"
@@ -629,7 +959,14 @@ func c11History(r *hx.R, root string, idx int, tier string, st *c11Stats) hx.Cas
 		tail = "last-op"
 		d := r.Intn(nd)
 		c := r.Intn(len(c11Pool))
-		switch r.Intn(8) {
+		switch r.Intn(10) {
+		case 8, 9:
+			if o, ok := retag(d); ok {
+				tail = "last-op/definitions-only"
+				do(o)
+			} else {
+				do(c11Op{Kind: "write", Dir: d, N: pickName(d, 0.5), C: c})
+			}
 		case 0:
 			do(c11Op{Kind: "write", Dir: d, N: pickName(d, 0.5), C: c})
 		case 1:
@@ -738,40 +1075,198 @@ func c11History(r *hx.R, root string, idx int, tier string, st *c11Stats) hx.Cas
 				}
 			}
 		}
+	case k < 78:
+		// Every query function as the FIRST query after a change which no event announces: the cache is quiet, a configured
+		// directory is missing (so it is not watched), it appears with a Spec in it.  Nothing but the next query's
+		// refreshIfRequired can notice.  That query is a different function each time and is polled alone; it must answer
+		// like the same function of a freshly built cache.  Determined: no event is pending (settled, then 30 ms), the
+		// directory's parent is not watched, nobody else calls the cache.
+		tail = "first-query-after-unannounced-appearance"
+		if _, _, ok, _ := settle(); ok {
+			d := r.Intn(nd)
+			if exists(d) {
+				do(c11Op{Kind: "rmall", Dir: d})
+				_, _, ok, _ = settle()
+			}
+			if ok {
+				time.Sleep(30 * time.Millisecond)
+				do(c11Op{Kind: "mkdir", Dir: d})
+				do(c11Op{Kind: "write", Dir: d, N: "c.json", C: c11Solo})
+				q := st.nextQuery % len(c11Queries)
+				st.nextQuery++
+				want := c11FreshQuery(confDirs, q)
+				var ans string
+				okq := false
+				for start := time.Now(); time.Since(start) < 2*time.Second; time.Sleep(time.Millisecond) {
+					if p, _ := hx.Guard(func() { ans = c11Queries[q].ask(cache) }); !p && ans == want {
+						okq = true
+						break
+					}
+				}
+				labels = append(labels, hx.P("LQuery", "true"))
+				human = append(human, fmt.Sprintf("first query after the directory appeared: %s => %s (a fresh cache: %s)", c11Queries[q].name, ans, want))
+				st.tails["first query: "+c11Queries[q].name]++
+				if !okq {
+					forcedFail = "as the first query after a missing directory had appeared with a Spec in it, " + c11Queries[q].name + " kept answering " + ans + "; a fresh cache answers " + want
+				}
+			}
+		}
+	case k < 84 && c11Pending("dir-renamed-away"):
+		// DEFECT-PENDING(dir-renamed-away): a watched directory is renamed to a place outside the Spec directories (to the
+		// configured path this is a removal; the machine is told ORmAll), sometimes re-created under the old name, sometimes
+		// with a further change in the directory that was moved away
+		tail = "directory-renamed-away"
+		var cand []int
+		for i := range dirs {
+			if _, linked := c11Links[dirs[i]]; !linked && exists(i) {
+				cand = append(cand, i)
+			}
+		}
+		if _, _, ok, _ := settle(); ok && len(cand) > 0 {
+			d := cand[r.Intn(len(cand))]
+			c11Uniq++
+			moved := filepath.Join(out, fmt.Sprintf("moved-%d", c11Uniq))
+			ok := os.Rename(dirs[d], moved) == nil
+			labels = append(labels, hx.P(hx.C("LOp", hx.C("ORmAll", hx.S(dirs[d]))), hx.B(ok)))
+			human = append(human, fmt.Sprintf("rename d%d to a place outside => %v", d, ok))
+			if ok {
+				nOK++
+			}
+			time.Sleep(time.Duration(r.Intn(30)) * time.Millisecond)
+			if r.Chance(0.6) {
+				do(c11Op{Kind: "mkdir", Dir: d})
+				do(c11Op{Kind: "write", Dir: d, N: hx.Pick(r, []string{"a.json", "b.yaml"}), C: 3 + r.Intn(len(c11Pool)-3)})
+				time.Sleep(time.Duration(r.Intn(30)) * time.Millisecond)
+				if r.Chance(0.5) {
+					do(c11Op{Kind: "write", Dir: d, N: "c.json", C: 3 + r.Intn(len(c11Pool)-3)})
+				}
+			}
+			if r.Chance(0.5) {
+				_ = os.WriteFile(filepath.Join(moved, "z.json"), c11Pool[c11Solo].data, 0o644)
+				human = append(human, "write z.json into the directory that was moved away (outside: no operation of the machine)")
+			}
+		}
+	case k < 88 && c11Pending("symlinked-dir-retarget"):
+		// DEFECT-PENDING(symlinked-dir-retarget): a configured directory which is a symbolic link is pointed at another
+		// directory by an atomic rename of a new link over it, or the link alone is removed (to the configured path: the
+		// directory is replaced / removed; the machine is told ORmAll, OMkdir, OWrite)
+		tail = "symlinked-directory-retargeted"
+		var cand []int
+		for i := range dirs {
+			if _, linked := c11Links[dirs[i]]; linked && exists(i) {
+				cand = append(cand, i)
+			}
+		}
+		if _, _, ok, _ := settle(); ok && len(cand) > 0 {
+			d := cand[r.Intn(len(cand))]
+			if r.Chance(0.6) {
+				c11Uniq++
+				real2 := filepath.Join(base, fmt.Sprintf("real%d-%d", d, c11Uniq))
+				c := 3 + r.Intn(len(c11Pool)-3)
+				name := hx.Pick(r, []string{"a.json", "b.yaml", "c.json"})
+				_ = os.Mkdir(real2, 0o755)
+				_ = os.WriteFile(filepath.Join(real2, name), c11Pool[c].data, 0o644)
+				ok := os.Symlink(real2, dirs[d]+".new") == nil && os.Rename(dirs[d]+".new", dirs[d]) == nil
+				c11Links[dirs[d]] = real2
+				labels = append(labels, hx.P(hx.C("LOp", hx.C("ORmAll", hx.S(dirs[d]))), hx.B(ok)))
+				labels = append(labels, hx.P(hx.C("LOp", hx.C("OMkdir", hx.S(dirs[d]))), hx.B(ok)))
+				labels = append(labels, hx.P(hx.C("LOp", hx.C("OWrite", hx.S(dirs[d]), hx.S(name), c11Pool[c].term)), hx.B(ok)))
+				human = append(human, fmt.Sprintf("point the link d%d at another directory holding %s %s => %v", d, name, c11Pool[c].term, ok))
+				if ok {
+					nOK++
+				}
+			} else {
+				ok := os.Remove(dirs[d]) == nil
+				labels = append(labels, hx.P(hx.C("LOp", hx.C("ORmAll", hx.S(dirs[d]))), hx.B(ok)))
+				human = append(human, fmt.Sprintf("remove the link d%d (the directory it led to stays) => %v", d, ok))
+				if ok {
+					nOK++
+				}
+			}
+		}
+	case k < 90 && c11Pending("queue-overflow"):
+		// DEFECT-PENDING(queue-overflow): more events than the inotify queue holds.  The watcher goroutine is stopped on an
+		// accepted event (this goroutine holds the cache lock); writes to two non-Spec files fill the queue (events the
+		// filter ignores) and keep it full; the lock is released; as soon as the watcher goroutine is past the accepted event
+		// (its rescan is over: the event log has grown again) a Spec file is written: its events are dropped.
+		tail = "queue-overflow"
+		var cand []int
+		for i := range dirs {
+			if exists(i) {
+				cand = append(cand, i)
+			}
+		}
+		logPath := os.Getenv("VERIF_EVENT_LOG")
+		logSize := func() int64 {
+			if fi, err := os.Stat(logPath); err == nil {
+				return fi.Size()
+			}
+			return 0
+		}
+		if len(cand) > 0 && logPath != "" {
+			d := cand[r.Intn(len(cand))]
+			do(c11Op{Kind: "write", Dir: d, N: "notes.txt", C: 1})
+			if _, _, ok, _ := settle(); ok {
+				time.Sleep(30 * time.Millisecond)
+				cache.Lock()
+				locked = true
+				size0 := logSize()
+				do(c11Op{Kind: "remove", Dir: d, N: "notes.txt"})
+				for i := 0; i < 1000 && logSize() == size0; i++ {
+					time.Sleep(time.Millisecond)
+				}
+				do(c11Op{Kind: "write", Dir: d, N: "a.json.tmp", C: 1})
+				do(c11Op{Kind: "write", Dir: d, N: "notes.txt", C: 1})
+				f1, e1 := os.OpenFile(filepath.Join(dirs[d], "a.json.tmp"), os.O_WRONLY|os.O_APPEND, 0)
+				f2, e2 := os.OpenFile(filepath.Join(dirs[d], "notes.txt"), os.O_WRONLY|os.O_APPEND, 0)
+				if e1 == nil && e2 == nil {
+					burst := func(n int) {
+						for i := 0; i < n; i++ { // IN_MODIFY of the two files alternate: no coalescing
+							_, _ = f1.Write([]byte("\n"))
+							_, _ = f2.Write([]byte("\n"))
+						}
+					}
+					burst(10000)
+					stop, stopped := make(chan bool), make(chan bool)
+					go func() {
+						for {
+							select {
+							case <-stop:
+								stopped <- true
+								return
+							default:
+								burst(10)
+							}
+						}
+					}()
+					size1 := logSize()
+					unlock()
+					for i := 0; i < 20000 && logSize() == size1; i++ {
+						time.Sleep(100 * time.Microsecond)
+					}
+					do(c11Op{Kind: "write", Dir: d, N: "c.json", C: c11Solo})
+					stop <- true
+					<-stopped
+					human = append(human, "(some 20000 further writes to a.json.tmp and notes.txt while the cache lock was held and until c.json was written)")
+					time.Sleep(300 * time.Millisecond) // the queue drains
+				}
+				if f1 != nil {
+					f1.Close()
+				}
+				if f2 != nil {
+					f2.Close()
+				}
+				unlock()
+			}
+		}
 	}
 	st.tails[tail]++
 
 	// the changes have ceased
-	fresh := c11Fresh(dirs)
-	limit := 3 * time.Second
-	if st.notConverged >= 6 {
-		limit = 400 * time.Millisecond // enough evidence already; keep the run short
+	fresh, got, converged, wait := settle()
+	if forcedFail != "" {
+		converged = false
 	}
-	start := time.Now()
-	var got c11Answer
-	converged := false
-	for sleep := 200 * time.Microsecond; ; {
-		var consistent bool
-		got, consistent = c11Ask(cache)
-		if consistent && got.equal(fresh) {
-			// and it stays so
-			time.Sleep(15 * time.Millisecond)
-			again, c2 := c11Ask(cache)
-			if c2 && again.equal(fresh) {
-				converged = true
-				break
-			}
-			got = again
-		}
-		if time.Since(start) > limit {
-			break
-		}
-		time.Sleep(sleep)
-		if sleep < 20*time.Millisecond {
-			sleep *= 2
-		}
-	}
-	wait := time.Since(start)
 	if converged {
 		st.waits = append(st.waits, float64(wait.Microseconds())/1000)
 	} else {
@@ -782,6 +1277,15 @@ func c11History(r *hx.R, root string, idx int, tier string, st *c11Stats) hx.Cas
 	for i := range dirs {
 		rel[i] = fmt.Sprintf("d%d", i)
 	}
+	var confRel, linkRel []string
+	for _, d := range confDirs {
+		confRel = append(confRel, strings.TrimPrefix(d, base+"/"))
+	}
+	for i, d := range dirs {
+		if _, ok := c11Links[d]; ok {
+			linkRel = append(linkRel, rel[i])
+		}
+	}
 	finalHuman := map[string]interface{}{}
 	for i := range dirs {
 		if _, h, ok := c11Listing(dirs[i]); ok {
@@ -791,11 +1295,12 @@ func c11History(r *hx.R, root string, idx int, tier string, st *c11Stats) hx.Cas
 		}
 	}
 	return hx.Case{
-		Term: hx.C("CHist", hx.LS(dirs), hx.L(initTerms), hx.L(labels), fresh.devTerm(), hx.LS(fresh.Errs),
+		Term: hx.C("CHist", hx.LS(modelDirs), hx.L(initTerms), hx.L(labels), fresh.devTerm(), hx.LS(fresh.Errs),
 			hx.B(converged), got.devTerm(), hx.LS(got.Errs)),
-		Desc: map[string]interface{}{"stream": "convergence", "dirs": rel, "initial": initHuman, "pacing": pacing, "tail": tail, "history": human,
+		Desc: map[string]interface{}{"stream": "convergence", "dirs": rel, "configured_as": confRel, "symbolic_links": linkRel, "initial": initHuman,
+			"pacing": pacing, "tail": tail, "history": human,
 			"final": finalHuman, "fresh_cache": fresh.human(base + "/"), "auto_refreshed_cache": got.human(base + "/"),
-			"converged": converged, "waited_ms": float64(wait.Microseconds()) / 1000},
+			"converged": converged, "waited_ms": float64(wait.Microseconds()) / 1000, "not_allowed": forcedFail},
 		Nontrivial: nOK > 0,
 		Class:      "history",
 		Known:      known,
@@ -854,7 +1359,11 @@ func c11FilterCases(s *hx.Suite, logPath, root string) error {
 			continue
 		}
 		total++
-		k := key{parts[0], filepath.Base(name), parts[2] == "true"}
+		bn := filepath.Base(name)
+		if strings.HasPrefix(bn, "spec.") && strings.HasSuffix(bn, ".tmp") {
+			bn = "spec.*.tmp" // the temporary files of Cache.WriteSpec: one class, whatever the random part
+		}
+		k := key{parts[0], bn, parts[2] == "true"}
 		if count[k] == 0 {
 			order = append(order, k)
 			example[k] = name
@@ -892,10 +1401,16 @@ func genC11(r *hx.R, tier string, scratch string) (*hx.Suite, error) {
 			"move out, remove, mkdir, rm -rf) on random directory populations under a bare fsnotify.Watcher, events delimited by a sentinel; " +
 			"convergence: random histories of 3-25 such operations (plus temp+rename publication and remove/re-create/populate bursts) over 1-3 configured " +
 			"directories, each missing at start with probability 0.3, file names with and without Spec extensions, contents empty / invalid / valid Specs over " +
-			"2 vendors x 2 device names (conflicts and shadowing arise), pacing none / Gosched / 1-20 ms sleeps / bursts / bursts while the cache lock is held / mixed, " +
+			"2 vendors x 2 device names x 2 definition tags (conflicts, shadowing, and rewrites that change nothing but the definitions arise), " +
+			"directories given to the cache in clean and non-clean spellings (trailing slash, /., //, x/../), one in eight lists naming the first directory again at the end, " +
+			"one directory in five a symbolic link to a directory (created and removed together with it), " +
+			"Cache.WriteSpec / Cache.RemoveSpec among the sources of changes, pacing none / Gosched / 1-20 ms sleeps / bursts / bursts while the cache lock is held / mixed, " +
 			"occasional queries, never Refresh; 30% of the histories end with one more operation of a uniformly chosen kind on an existing entry, 18% with " +
 			"remove + re-create + populate in one burst, a pause, and a second removal (half of them while the cache lock is held; the other half is the only " +
-			"stream in which a directory is populated less than 2 ms after its creation while the watcher may run: known finding C11/add-scan-window); then polling ListDevices + GetDevice(..).GetSpec().GetPath() + GetErrors keys until equal (twice, 15 ms apart) to a " +
+			"stream in which a directory is populated less than 2 ms after its creation while the watcher may run: known finding C11/add-scan-window), " +
+			"14% (more when there is one directory) with a quiet cache, a missing directory that appears with a Spec in it (no event) and ONE query function polled alone " +
+			"(GetDevice, InjectDevices, ListVendors, ListClasses, GetVendorSpecs, ListDevices, Refresh+GetErrors in turn) until it answers like the same function of a fresh cache; " +
+			"then polling ListDevices + GetDevice(..): GetSpec().GetPath() and the tag in the device's edits + GetErrors keys until equal (twice, 15 ms apart) to a " +
 			"freshly built cache's, deadline 3 s; filter: every distinct (op, base name, decision) logged by the verifEvent hook during the histories. " +
 			"Non-trivial: at least one operation of the case succeeded.",
 	}
@@ -908,7 +1423,7 @@ func genC11(r *hx.R, tier string, scratch string) (*hx.Suite, error) {
 	os.Setenv("VERIF_EVENT_LOG", logPath)
 
 	kinds := []string{"write", "write", "write", "movein", "movein", "linkin", "symlinkin", "rename", "rename", "rename", "moveout", "remove", "mkdir", "rmall"}
-	nEv, nHist := 6*len(kinds), 320
+	nEv, nHist := 6*len(kinds), 300
 	if tier == "thorough" {
 		nEv, nHist = 20*len(kinds), 1600
 	}
